@@ -63,14 +63,24 @@ func verifRefInt(s string) (v int64, ok bool) {
 			return 0, false
 		}
 	}
+	// accumulated as a negative number so that the most negative value is representable;
+	// a number outside 64 bits does not convert
+	const min = -9223372036854775808
 	for ; i < len(s); i++ {
 		d := s[i]
 		if d < '0' || d > '9' {
 			return 0, false
 		}
-		v = v*10 + int64(d-'0')
+		dv := int64(d - '0')
+		if v < min/10 || (v == min/10 && dv > 8) {
+			return 0, false
+		}
+		v = v*10 - dv
 	}
-	if neg {
+	if !neg {
+		if v == min {
+			return 0, false
+		}
 		v = -v
 	}
 	return v, true
@@ -90,7 +100,7 @@ var verifTypes = []storage.DataType{storage.TypeInt, storage.TypeVarchar, storag
 
 // verifField returns a CSV field of class k: 0 symbolic bytes of length n
 // (free of separators, quotes and line breaks), 1 the NULL marker, 2 a fixed
-// boolean spelling, 3 a number of n symbolic digits.
+// boolean spelling, 3 a number of n symbolic digits, 4 a number around +-2^63.
 func verifField(tag string, k, n int) string {
 	switch k {
 	case 1:
@@ -103,6 +113,14 @@ func verifField(tag string, k, n int) string {
 			verifAssume(verifAnd(c >= '0', c <= '9'))
 		}
 		return string(b)
+	case 4:
+		// around the ends of 64 bits: 922337203685477580d and -922337203685477580d with a symbolic last digit
+		d := verifU8(tag + "last")
+		verifAssume(verifAnd(d >= '0', d <= '9'))
+		if verifChoice(tag+"sign", 2) == 1 {
+			return "-922337203685477580" + string([]byte{d})
+		}
+		return "922337203685477580" + string([]byte{d})
 	default:
 		b := verifBytes(tag, n)
 		for _, c := range b {
